@@ -108,7 +108,7 @@ def main():
     quick = ck.tier == "quick"
     gate_ok = ck.proof_gate(["MirVerif.Props.C01", "MirVerif.Props.C01Exprs"],
                   support_modules=["MirVerif.Model.GenTable", "MirVerif.Model.GenCanon", "MirVerif.Lemmas.GenTable",
-                                   "MirVerif.Lemmas.GenPow2"],
+                                   "MirVerif.Lemmas.GenPow2", "MirVerif.Lemmas.GenExt"],
                   bridge_modules=["MirVerif.Lemmas.BridgeC01", "MirVerif.Lemmas.BridgeC02"],
                   translators=["c01_tables.py", "c02_tables.py", "c01_exprs.py"])
     if not quick:
